@@ -58,7 +58,7 @@ pub fn contexts(w: i32, h: i32, quick: bool) -> Vec<(&'static str, Vec<Op>, Vec<
     v
 }
 
-fn sources(vals: &[u32], w: i32, h: i32, quick: bool) -> Vec<SrcSpec> {
+pub fn sources(vals: &[u32], w: i32, h: i32, quick: bool) -> Vec<SrcSpec> {
     let mut v: Vec<SrcSpec> = vals.iter().map(|c| SrcSpec::Solid(*c)).collect();
     v.push(SrcSpec::Image { w: 5, h: 3, data: image_of(5, 3, &VALS12, 1), repeat: true, bilinear: true, xf: IDENT });
     v.push(SrcSpec::Image { w: w - 1, h: h - 1, data: image_of(w - 1, h - 1, &VALS12, 4), repeat: false, bilinear: false, xf: [1., 0., 0., 1., -1., -1.] });
@@ -74,7 +74,7 @@ fn sources(vals: &[u32], w: i32, h: i32, quick: bool) -> Vec<SrcSpec> {
     v
 }
 
-fn probes(w: i32, h: i32, src: &SrcSpec, o: Opts, quick: bool) -> Vec<Op> {
+pub fn probes(w: i32, h: i32, src: &SrcSpec, o: Opts, quick: bool) -> Vec<Op> {
     let (wf, hf) = (w as f32, h as f32);
     let mut v = vec![
         Op::Fill(PathSpec::poly(&[(0., 0.), (wf, 0.5), (0.25, hf)]), src.clone(), o),
